@@ -124,6 +124,11 @@ def history(p, ctx):
             elif kind == "rev":
                 before = dump(M)
                 ok1, r = ctx.call(M.project.reverse_log_information)
+                once = dump(M)
+                for key, val_ in before.items():
+                    if isinstance(val_, list) and key != "project.absence_time_list":
+                        if once.get(key) != val_[::-1]:
+                            ctx.fail("C08:reverse-does-not-reverse:%s" % short_key(key))
                 ok2, r = ctx.call(M.project.reverse_log_information)
                 if not (ok1 and ok2):
                     ctx.fail("C08:raised:rev")
@@ -153,6 +158,9 @@ def obligations(tier, seed):
         members["wf-%s" % profiles.KN[k]] = ({"tasks": [{"w": "$w0", "due": "$d0"}, {"w": "$w1", "due": "$d1"}, {"w": 2, "auto": True}], "edges": [[0, 1, k]],
                                               "teams": profiles.layout_workers("shared1", 2) + [{"targets": [0], "workers": []}], "run": {"max_time": 6, "abs": ["$pa0"]}},
                                              [["w0", 0, 2], ["w1", 0, 2], ["pa0", -1, 2], ["d0", 0, 1], ["d1", 0, 1]])
+    members["gap"] = ({"tasks": [{"w": "$w0", "comp": 0}, {"w": "$w1"}, {"w": 1, "comp": 0}, {"w": 1, "subproject": True}], "edges": [[0, 1, 0], [1, 2, 0], [0, 3, 0]],
+                       "comps": [{"size": 1}], "teams": profiles.layout_workers("shared1", 4), "run": {"max_time": 8, "abs": ["$pa0"]}},
+                      [["w0", 1, 2], ["w1", 1, 2], ["pa0", 0, 4]])
     fac = [ob for ob in profiles.p_product("F1", thorough) if "wps=2/links=0>1/wprule=0/fs" in ob["name"]][0]
     members["prod"] = (fac["cube"]["spec"], [[n, max(lo, 1), min(hi, 2)] for n, lo, hi in fac["params"]])
     firsts = [["sim", {"mt": "$m0"}], ["bwd", {"mt": "$m0", "due": 0, "rev": 1}], ["bwd", {"mt": "$m0", "due": 1, "rev": 0}]]
